@@ -591,7 +591,12 @@ def stepDriver (d : DSt) (op implObs : String) : DSt × String × List String :=
               | none => none
             else none
         else []
-      let annViol := annViol ++ extViol ++ (extViol.map fun v => v.replace "C11 extension-message" "C13 extension-message")
+      -- C02: a padding file is never opened, created or written (BEP 47: it exists in the piece space only)
+      let implSto := ((impl.find? fun (k, _) => k = "sto").map (·.2)).getD ""
+      let implCrash := ((impl.find? fun (k, _) => k = "crash").map (·.2)).getD ""
+      let padViol := (if (implSto.splitOn ".pad/").length ≥ 2 then [s!"C02 padding-file-touched-on-disk sto={implSto.replace " " "_"}"] else []) ++
+        (if implCrash.startsWith "padondisk" then [s!"C02 padding-file-touched-on-disk after-restart={implCrash}"] else [])
+      let annViol := annViol ++ padViol ++ extViol ++ (extViol.map fun v => v.replace "C11 extension-message" "C13 extension-message")
       ({ s := some st2, parked := parked, implDials := implDials, knownPeers := known, trk := trk, startWhileStopping := sws, verifyPending := vp, noListen := noListen, looseDials := looseDials, metaIds := metaIds },
         renderObs st2 r.verdict outs1 impl dlTok trk.ntrk anns noListen
           -- the IPs of pending outgoing handshakes to the hold sink (not modelled) count as connected while the
